@@ -21,6 +21,11 @@
                                           -> ok <final file>..  |  mismatch <event> <text>
         an observed history replayed through the interleaved semantics (init_state/exec):
         op = r:<data> | p:<off>:<data> | w:<data> | t:<size>; kind = open | flock<arg> | io | close
+     polcall <call> <arg> <file> <policy> -> same as ops, the whole call run under a fault POLICY (Policy.v):
+        policy = none | limit:<L> | class:<open>:<flock>:<read>:<write>:<trunc>:<close>
+                 (each <k> or <k>+ : the k-th call of the class fails, with + every later one too; 0 = never)
+        call also: writer, arg = <chunk>,<chunk>..:<0|1>  (Write with a reader delivering the chunks,
+        1 = the reader ends with an error)
      mutexfacts                           -> lockpanic <msg>|lockruns -  atpanic <msg>|atok -
      mutexstring <path>                   -> <hex of Mutex.String()>
      spec <call> <arg> <reg>              -> <outcome> <new reg>   (call_spec: the sequential
@@ -59,6 +64,10 @@ let call_of name arg : call =
   | "open" -> COpen ok_body
   | "mutex" -> CMutex
   | "openfile" -> COpenFile (n_of_int (int_of_string arg), ok_body)
+  | "writer" ->
+      (match String.split_on_char ':' arg with
+       | [cs; e] -> writer_call (List.map bytes_of_hex (String.split_on_char ',' cs)) (e = "1")
+       | _ -> failwith "bad writer arg")
   | "createwrite" -> CCreate (write_body (bytes_of_hex arg))
   | "editwrite" -> CEdit (write_body (bytes_of_hex arg))
   | _ -> failwith "bad call"
@@ -69,6 +78,24 @@ let show (tr, out, o) =
 let run_call c plan file =
   let ((tr, out), o) = run_seq O O (prog_of_call c) plan O (os_with file) in
   (tr, out, o)
+(* ---- a whole call under a fault policy *)
+let cspec_of s =
+  let n = String.length s in
+  if n > 0 && s.[n - 1] = '+' then { cs_first = nat_of_int (int_of_string (String.sub s 0 (n - 1))); cs_all = true }
+  else { cs_first = nat_of_int (int_of_string s); cs_all = false }
+let policy_of spec =
+  match String.split_on_char ':' spec with
+  | ["none"] -> no_fault_pol
+  | ["limit"; l] -> limit_pol (nat_of_int (int_of_string l))
+  | ["class"; o; f; r; w; t; c] ->
+      let o = cspec_of o and f = cspec_of f and r = cspec_of r and w = cspec_of w and t = cspec_of t and c = cspec_of c in
+      class_pol (function KOpen -> o | KFlock -> f | KRead -> r | KWrite -> w | KTrunc -> t | KClose -> c | KMark -> cs_never)
+  | _ -> failwith "bad policy"
+let run_call_pol name c pol file =
+  let ((h, out), o) = run_pol O O (prog_of_call c) pol [] (os_with file) in
+  (* Write hands back the error of Close when the copy succeeded *)
+  let out = if name = "write" || name = "writer" then write_outcome h out else out in
+  (List.rev h, out, o)
 (* with inode attributes; a non-regular file is given some contents the model never looks at *)
 let run_call_a a c file =
   let ((tr, out), o) = run_seq_a a O O (prog_of_call_a a c) no_faults O (os_with file) in
@@ -185,6 +212,7 @@ let () = serve (function
       let a = { a_regular = (reg = "1"); a_can_read = (rd = "1"); a_can_write = (wr = "1") } in
       show (run_call_a a (call_of name arg) (file_of file))
   | ["ops"; name; arg; file] -> show (run_call (call_of name arg) no_faults (file_of file))
+  | ["polcall"; name; arg; file; spec] -> show (run_call_pol name (call_of name arg) (policy_of spec) (file_of file))
   | ["fault"; old; nw; k; kind; n] ->
       let c = call_of "transform" nw in
       let file = Some (bytes_of_hex old) in
